@@ -1,0 +1,63 @@
+//! Verification hooks for the bridge RotoRib (roto filter composed with the
+//! RIB; feature `verif-hooks`, add-only). Mounted as a child module of
+//! `filter::unit` because `RotoFilterRunner`, its fields and its
+//! `process_update` are private there and its only non-`new` constructor,
+//! `RotoFilterRunner::mock`, is `cfg(test)`.
+//!
+//! Nothing here has behaviour of its own: `mk_runner` builds the runner field
+//! for field as `RotoFilterRunner::mock` does; the rest are plain calls.
+
+use std::sync::Arc;
+
+use arc_swap::ArcSwap;
+
+use super::super::status_reporter::RotoFilterStatusReporter;
+use super::RotoFilterRunner;
+use crate::comms::{DirectUpdate, Gate, GateAgent};
+use crate::payload::Update;
+use crate::roto_runtime::types::FilterName;
+use crate::tracing::Tracer;
+
+/// The (private) runner of a `filter` unit.
+pub struct FilterUnit(RotoFilterRunner);
+
+/// A `filter` unit runner on a gate of its own, as
+/// `RotoFilterRunner::mock(_, filter_name)` builds it under `cfg(test)`.
+/// The `GateAgent` must be kept alive by the caller.
+pub fn mk_runner(filter_name: &str) -> (FilterUnit, GateAgent) {
+    let (gate, gate_agent) = Gate::new(0);
+    let gate = gate.into();
+    let status_reporter = RotoFilterStatusReporter::default().into();
+    let filter_name = Arc::new(ArcSwap::from_pointee(FilterName::from(
+        filter_name.to_string(),
+    )));
+    let tracer = Arc::new(Tracer::new());
+
+    let runner = RotoFilterRunner {
+        gate,
+        status_reporter,
+        filter_name,
+        tracer,
+    };
+
+    (FilterUnit(runner), gate_agent)
+}
+
+/// `RotoFilterRunner::process_update`, unchanged.
+pub async fn process_update(
+    unit: &FilterUnit,
+    update: Update,
+) -> Result<(), String> {
+    unit.0.process_update(update).await
+}
+
+/// The unit's `DirectUpdate::direct_update` (what an upstream gate calls).
+pub async fn direct_update(unit: &FilterUnit, update: Update) {
+    unit.0.direct_update(update).await
+}
+
+/// One turn of the runner's gate command loop (`Gate::process`), so a
+/// harness link can subscribe to the gate the runner publishes on.
+pub async fn gate_process(unit: &FilterUnit) {
+    let _ = unit.0.gate.process().await;
+}
